@@ -186,6 +186,10 @@ func (e *RuleEntry) Evaluate(ctx context.Context, dataContext IDataContext, memo
 
 		return false, fmt.Errorf("evaluating expression in rule '%s' the when raised an error. got %v", e.RuleName, err)
 	}
+	// the condition may be a boolean that is reached through a pointer or an interface (*bool field, interface{} field).
+	if elem := pkg.GetValueElem(val); elem.IsValid() {
+		val = elem
+	}
 	if val.Kind() != reflect.Bool {
 
 		return false, fmt.Errorf("evaluating expression in rule '%s', the when is not a boolean expression : %s", e.RuleName, e.WhenScope.Expression.GetGrlText())
